@@ -48,6 +48,7 @@ var interpretedPkgs = []string{
 	"container/list", "iter", "maps", "internal/itoa", "internal/stringslite", "time",
 	"github.com/oxtoacart/bpool",
 	"github.com/grpc-ecosystem/go-grpc-middleware/v2/interceptors/auth",
+	"github.com/grpc-ecosystem/go-grpc-middleware/v2",
 	"internal/byteorder", "hash/crc32", "encoding/hex", "internal/godebug",
 	"github.com/lni/dragonboat/v4/raftpb",
 	"github.com/planetscale/vtprotobuf/protohelpers",
@@ -209,6 +210,10 @@ type Instance struct {
 	Unwind  int
 	Expect  string // "" = must pass; "violated" = vacuity twin, must be violated
 	MaxPath int
+	// EngineOnly: the harness exercises something that has no native twin
+	// (e.g. an anonymous closure executed with opaque captured variables);
+	// its violations are reported without native confirmation.
+	EngineOnly bool
 }
 
 func (in *Instance) Name() string {
